@@ -298,8 +298,13 @@ fn validate_rpc_limits(
     max_publish_messages: usize,
     max_control_message_size: usize,
 ) -> io::Result<bool> {
-    let message_length = buf.len();
-    if message_length > max_message_size {
+    // The limit applies to the declared length of this frame only: the read buffer may
+    // already hold (parts of) the frames that follow it. An oversized frame is rejected
+    // as soon as its length prefix is readable.
+    let mut prefix = buf;
+    if let Ok(message_length) = prost::encoding::decode_varint(&mut prefix)
+        && message_length > max_message_size as u64
+    {
         return Err(io::Error::new(
             io::ErrorKind::InvalidData,
             format!("message with {message_length}b exceeds maximum of {max_message_size}b",),
